@@ -147,9 +147,10 @@ LINE = re.compile(r"^t(\d+) (H )?(.*)$")
 
 def monitors(r):
     scenario, trace, status = r["scenario"], r["impl"], r["status"]
-    probs = {"C09": [], "C10": [], "C11": [], "C03": monitor_c03(r), "C12": []}
+    probs = {"C09": [], "C10": [], "C11": [], "C03": monitor_c03(r), "C12": [], "C01": []}
     if r.get("leaked", "LEAKED []") != "LEAKED []":
         probs["C12"].append("after the instance and all its handles were dropped, an action it registered is still in the registry and still runs: %s" % r["leaked"])
+        probs["C01"].append("the object that owned the registrations was dropped (removal returned), yet an action it registered still runs and what it captured is not released: %s" % r["leaked"])
     watched = set()
     for l in scenario:
         if l.startswith("setup watch"):
